@@ -585,6 +585,15 @@ impl<D: StorageData> Storage<D> {
                 ));
             }
 
+            // the record table is indexed by the record index; an index no
+            // table could ever hold in memory only occurs in a damaged file
+            if record.index >= (isize::MAX as u64) / (size_of::<StorageRecord>() as u64) {
+                return Err(DbError::storage(
+                    DbErrorType::OutOfBounds,
+                    format!("Invalid record index ({})", record.index),
+                ));
+            }
+
             self.records.set_record(record);
             current_pos = record.end();
         }
